@@ -1169,6 +1169,11 @@ func (h *histRun) checkQuiescent(final bool) {
 					sig := "directMismatch"
 					if h.hasNote("populate.deleted", c.CID, rid) {
 						sig = "directMismatch.populateDeleted"
+					} else if h.hadDelete(rid) && h.hasNote("sub.unsend", c.CID, rid) {
+						// finding C: Unsend reset the state of a subscription that
+						// had received a delete event; it then lives on as a
+						// normal one, outside the cache, released twice
+						sig = "directMismatch.unsendRevived"
 					}
 					h.viol(Viol{Prop: "C08", Conn: c.Idx, T: now, RID: rid, Sig: sig,
 						Msg: fmt.Sprintf("gateway holds %d direct subscriptions on %s, protocol accounting says %d", hd, rid, rc.Direct[rid])})
